@@ -21,13 +21,41 @@ except ImportError:  # py < 3.11
 DIG = [chr(c) for c in range(0x660, 0x1FFFF) if unicodedata.category(chr(c)) == 'Nd']
 IDX = {c: i for i, c in enumerate(DIG)}
 REG = []
+SEMANTIC_MERGE = [True]   # harnesses whose code under test never compares rendered numbers may switch this off
 
 
 def reset():
     del REG[:]
 
 
+def _equal(v, value):
+    """are two rendered numbers the same number?  CrossHair: symbolic ==, forking when both are possible.  symx: decided
+    without forking -- syntactically, else by the solver within a small budget; when both outcomes are possible the two
+    renderings are kept apart (distinct placeholders compare unequal, exactly like the digits of two numbers that differ),
+    and that is only wrong on inputs where they coincide *and* the code under test compares the rendered texts -- such
+    undecided pairs are counted and reported in the evidence (`undecided_equalities`)."""
+    try:
+        from lib import symx
+    except ImportError:
+        symx = None
+    if symx is not None and symx.ENGINE is not None and (symx.is_sym(v) or symx.is_sym(value)):
+        r = symx.ENGINE.quick_equal(symx._t(v), symx._t(value))
+        return bool(r)
+    return v == value
+
+
 def ph(value, width):
+    """placeholder text for `value` rendered with `width` digits.  Two renderings of equal values with the same
+    width must be equal strings (the code under test compares and sorts rendered values), so an existing
+    placeholder is reused when the value is the same object or -- decided by the solver, forking if both are
+    possible -- an equal number."""
+    for k, (v, w) in enumerate(REG):
+        if w == width and v is value:
+            return DIG[k] * width
+    if SEMANTIC_MERGE[0]:
+        for k, (v, w) in enumerate(REG):
+            if w == width and _equal(v, value):
+                return DIG[k] * width
     k = len(REG)
     REG.append((value, width))
     return DIG[k] * width
@@ -294,3 +322,18 @@ def hms(s):
     if len(d) == 5 and d[1] == ':' and d[3] == ':' and all(not isinstance(d[i], str) and d[i][1] == 2 for i in (0, 2, 4)):
         return d[0][0], d[2][0], d[4][0]
     return None
+
+
+def install_symx_hook():
+    """the same rendering rule for symx proxies: f'{n:02d}' of a symbolic n in range -> placeholder; str(n) -> concretised"""
+    from lib import symx
+
+    def fmt(obj, spec):
+        if len(spec) == 3 and spec[0] == '0' and spec[1] in '123456789' and spec[2] == 'd':
+            w = int(spec[1])
+            if 0 <= obj < 10 ** w:
+                return ph(obj, w)
+        return format(int(obj), spec)
+    symx.FORMAT_HOOK[0] = fmt
+    if reset not in symx.RESET_HOOKS:
+        symx.RESET_HOOKS.append(reset)
